@@ -246,7 +246,11 @@ def validate_events(ctx, module, cfg, events, shards=8, timeout=1800, env=None, 
     if n == 0:
         return []
     workers = max(1, min(shards, n))
-    shards = max(1, min(shards * (6 if ctx.tier == "thorough" and n > 20000 else 1), n))
+    # thorough: many more pieces than workers (load balance), and pieces small enough for the 3 GB heap of a
+    # single-worker TLC (a piece of more than ~4 000 events with long byte strings makes the JVM thrash)
+    if ctx.tier == "thorough" and n > 20000:
+        shards = max(shards * 6, n // 4000)
+    shards = max(1, min(shards, n))
     cuts = [0]
     for k in range(1, shards):
         c = (n * k) // shards
